@@ -233,7 +233,7 @@ Proof. unfold u_soa. destruct (u_ops_state z) as [H _]. apply H. Qed.
 (* ------------------------------------------------------------------ safe update histories *)
 Definition safe_op (o : op) : bool :=
   match o with
-  | OUNew | OUBatchDel | OUBatchAdd _ _ | OUFin _ _ => true
+  | OUNew | OUBatchDel _ | OUBatchAdd _ _ | OUFin _ _ => true
   | OUAdd g | OUDel g => negb (special_type (g_owner g) (g_type g))
   | _ => false
   end.
@@ -279,7 +279,8 @@ Proof.
   - destruct (sinv_misc z0 _ Hopen) as (_ & Hf & _). apply Hf.
   - destruct (s_fin s); [apply Herr|]. apply sinv_on_work; auto. intro z. apply u_add_state.
   - destruct (s_fin s); [apply Herr|]. apply sinv_on_work; auto. intro z. apply u_del_state.
-  - destruct (s_fin s); [apply Herr|]. apply sinv_commit. exact Hs.
+  - destruct (s_fin s); [apply Herr|]. destruct (s_work s); [|exact Hs].
+    destruct (if batch_delete_checks_serial then soa_serial_matches d n else true); [apply sinv_commit; exact Hs|apply Herr].
   - destruct (s_fin s); [apply Herr|]. apply sinv_on_work; auto. intro z. apply u_soa_state.
   - destruct (s_fin s); [apply Herr|].
     assert (H1 : sinv z0 (commit false (on_work (u_soa ttl d) s))).
